@@ -910,6 +910,24 @@ func execSched(t *testing.T, p *Plan) *Result {
 		res.violate(len(s.picks), "lock-misuse", "C20/lock-misuse/"+strings.ReplaceAll(strings.SplitN(s.misuse, " in ", 2)[0], " ", "-"), "every request completes", "fatal error: "+s.misuse, "the runtime ends the process on this: every request in flight is lost")
 		return res
 	}
+	// every request has completed: a lock one of them still holds is held for good (the next request that needs it never comes back);
+	// found here rather than by the checks below, which run on the harness goroutine and would wait for it themselves
+	for _, tk := range s.tasks {
+		if len(tk.held) > 0 && tk.getPanicked() == nil {
+			var held []string
+			for _, h := range tk.held {
+				k := "R"
+				if h.write {
+					k = "W"
+				}
+				held = append(held, h.site+"."+k)
+			}
+			res.logf("%s completed holding %v", tk.name, held)
+			res.violate(len(s.picks), "deadlock", "C20/deadlock/lock-held-after-completion["+strings.Join(held, ",")+"]", "every request completes, and leaves every lock it took",
+				"a completed request still holds a lock", taskKind(tk.name)+" completed holding "+strings.Join(held, ","))
+			return res
+		}
+	}
 	for _, tk := range s.tasks {
 		if pv := tk.getPanicked(); pv != nil {
 			res.logf("%s PANIC", tk.name)
